@@ -50,7 +50,7 @@ def _source_key(extra=""):
     for pat in ["src/**/*.rs", "Cargo.toml", "examples/**/*"]:
         files += glob.glob(os.path.join(REPO, pat), recursive=True)
     for pat in ["harness/src/*.rs", "harness/Cargo.toml", "harness/.cargo/config.toml", "spec/*.tla",
-                "spec/*.cfg", "spec/mc/*", "tools/*.py", "tools/*.sh", "check", "known_findings.json"]:
+                "spec/*.cfg", "spec/mc/*", "proofs/*.tla", "tools/*.py", "tools/*.sh", "check", "known_findings.json"]:
         files += glob.glob(os.path.join(VERIF, pat), recursive=True)
     files = [f for f in files if os.path.isfile(f)]
     return hashlib.sha256((sha_files(files) + extra).encode()).hexdigest()[:24]
